@@ -2,19 +2,20 @@
    Statements only; proofs in Proofs/EditProofs.v.  The model is the abstract
    editor on the decoded message; the byte-shuffling C code is tied to it by
    the correspondence run (bytes compared after every edit). *)
-From DV Require Import Lib.Base Spec.Codec Wire.HeaderEdit Proofs.EditProofs Proofs.CodecWf Proofs.CodecRoundtrip.
+From DV Require Import Lib.Base Spec.Codec Wire.HeaderEdit Proofs.EditProofs Proofs.CodecWf Proofs.CodecRoundtrip Proofs.CodecMessage.
 From Coq Require Import Lia ZifyN ZifyNat.
 Local Open Scope N_scope.
 
-(* Full statement, incl. the serialisation half that is not yet a theorem:
-   every edit sequence on a spec-valid message re-serialises to bytes the
-   specification decoder accepts as the edited message (when the mandatory
-   fields remain). *)
-Definition C12_full_statement : Prop :=
-  forall m es, let m' := fold_left apply_edit es m in
-    fields_ok [] (s_fields m') = true -> mandatory_ok (s_type m') (s_fields m') = true ->
-    spec_decode_message (spec_encode_message m) <> None ->
-    exists n, spec_decode_message (spec_encode_message m') = Some (m', n).
+(* Well-formedness after edits: whatever sequence of edits was applied, if the
+   edited abstract message is well-formed ([wf_msg]: in particular the fields
+   mandatory for its type are still present and every field value is valid) its
+   re-serialisation decodes, per the specification, to exactly the edited
+   message -- in either byte order and for any field order, unknown fields
+   included. *)
+Theorem C12_wellformed : forall m es, let m' := fold_left apply_edit es m in
+  wf_msg m' = true -> spec_decode_message (spec_encode_message m') = Some (m', nlen (spec_encode_message m')).
+Proof. intros m es m' H. apply message_roundtrip. exact H. Qed.
+Print Assumptions C12_wellformed.
 
 Theorem C12_readback : forall fs c v, get_field (set_field fs c v) c = Some v.
 Proof. exact get_set_same. Qed.
@@ -54,7 +55,6 @@ Print Assumptions C12_frame.
 
 (* the re-serialised header-field array of ANY field list (after any edits) decodes back to
    exactly that list, in order, given only that the field values are well-formed *)
-Definition fields_val (le : bool) (fs : list sfield) : val := VArr (TStruct [TBasic 121; TVariant]) (map (enc_field le) fs).
 Theorem C12_fields_reserialise : forall le fs rest,
   wfb le 0 12 (fields_val le fs) = true ->
   dec le DEC_FUEL fields_array_ty 0 12 (enc le (fields_val le fs) 12 ++ rest)
@@ -66,6 +66,10 @@ Qed.
 Print Assumptions C12_fields_reserialise.
 
 (* non-vacuity *)
+Definition ex_msg0 : smsg :=
+  build false 1 0 9 [ESet 1 (VStr 111 [47;97]); ESet 3 (VStr 115 [77]); ESet 6 (VStr 115 [97;46;98])] [VNum 105 7].
+Definition ex_edits : list edit := [ESet 6 (VStr 115 [120;46;121;46;122;122;122;122;122]); EDel 2; ESet 7 (VStr 115 [58;49;46;53]); EStrip].
+Example ex_edited_wf : wf_msg (fold_left apply_edit ex_edits ex_msg0) = true. Proof. vm_compute. reflexivity. Qed.
 Definition ex_fs : list sfield := [mk_field 1 (VStr 111 [47; 97]); mk_field 77 (VNum 121 5); mk_field 3 (VStr 115 [83])].
 Example ex_set_replaces_in_place : map sf_code (set_field ex_fs 77 (VNum 121 6)) = [1; 77; 3]. Proof. reflexivity. Qed.
 Example ex_set_appends : map sf_code (set_field ex_fs 6 (VStr 115 [97;46;98])) = [1; 77; 3; 6]. Proof. reflexivity. Qed.
